@@ -234,13 +234,18 @@ def _show(t):
 
 def eff_cond(term):
     """The expression whose truth value selects succ[0] (true) / succ[1] (false) of a block.
-    For `if (a && b)` the final block's terminator condition is the whole `a && b`, but the
-    value decided *in that block* is that of the right-most operand."""
+    For `if (a && b)` clang normally builds a short-circuit CFG: the final block is reached only
+    when `a` held and decides on the right-most operand.  When the condition is wrapped in
+    temporaries' clean-ups clang instead computes the logical value in the statement's block
+    (both operand blocks flow into it); such blocks are marked `vshape` by Func and decide on
+    the *whole* condition (see implied_atoms for what a branch then implies)."""
     if not term:
         return None
     c = term.get('cond')
     if c is None:
         return None
+    if term.get('vshape'):
+        return c
     if term.get('c') == 'BinaryOperator' and term.get('op') in ('&&', '||'):
         # condition reported is the LHS
         return _rightmost(c)
@@ -265,6 +270,23 @@ def _rightmost(c):
             return c
         return r
     return c
+
+
+def implied_atoms(cond, truth):
+    """[(atom, truth)] facts implied by `cond` evaluating to `truth` (conjunctions on the true
+    side, disjunctions on the false side; nothing is implied by a false conjunction)."""
+    c = cond
+    while isinstance(c, dict) and c.get('k') == 'cast' and c.get('imp'):
+        c = c.get('e')
+    if not isinstance(c, dict):
+        return []
+    if c.get('k') == 'un' and c.get('op') == '!':
+        return implied_atoms(c.get('e'), not truth)
+    if c.get('k') == 'bin' and c.get('op') == '&&':
+        return implied_atoms(c.get('l'), True) + implied_atoms(c.get('r'), True) if truth else []
+    if c.get('k') == 'bin' and c.get('op') == '||':
+        return [] if truth else implied_atoms(c.get('l'), False) + implied_atoms(c.get('r'), False)
+    return [(c, truth)]
 
 
 def strip_not(c):
@@ -308,6 +330,20 @@ class Func:
         self._dom = None
         self._pdom = None
         self.dead = set()
+        # value-shaped logical conditions (see eff_cond)
+        for b in self.blocks.values():
+            t = b.get('term')
+            if not t or t.get('c') == 'BinaryOperator' or len(b['succ']) != 2:
+                continue
+            c = t.get('cond')
+            while isinstance(c, dict) and ((c.get('k') == 'cast' and c.get('imp')) or (c.get('k') == 'un' and c.get('op') == '!')):
+                c = c.get('e')
+            if not (isinstance(c, dict) and c.get('k') == 'bin' and c.get('op') in ('&&', '||')):
+                continue
+            for p in self.preds.get(b['id'], []):
+                pt = self.blocks[p].get('term')
+                if pt and pt.get('c') == 'BinaryOperator' and pt.get('op') in ('&&', '||'):
+                    t['vshape'] = 1
 
     @property
     def has_cfg(self):
@@ -347,6 +383,23 @@ class Func:
                     seen.add(s)
                     dq.append(s)
         return seen
+
+    def natural_loops(self):
+        """{header block: set of blocks of its natural loop} (back edges n -> h with h dominating n)."""
+        doms = self.dominators()
+        loops = {}
+        for n, blk in self.blocks.items():
+            for h in blk['succ']:
+                if h in doms.get(n, set()):
+                    body = loops.setdefault(h, {h})
+                    st = [n]
+                    while st:
+                        x = st.pop()
+                        if x in body:
+                            continue
+                        body.add(x)
+                        st.extend(p for p in self.preds.get(x, []) if p in self.blocks)
+        return loops
 
     def live_blocks(self):
         """Blocks reachable from the entry or from an exception handler / try dispatch block."""
